@@ -59,6 +59,9 @@ def plan(tier, seed):
             specs.append(dict(name="e2e-jit-%d" % p, mode="jit", what="e2e", n=12, seed=[seed, 189, p]))
     else:
         specs.append(dict(name="e2e-jit", mode="jit", what="e2e", n=2, seed=[seed, 189, 0]))
+    # the relabelling function (table, switching cost from the argument bundle, labelling kernel) under equivalent scalar forms
+    specs.append(dict(name="relabel-interp", mode="interp", what="relabel", n=250 if q else 2500, seed=[seed, 18888, 0]))
+    specs.append(dict(name="relabel-jit", mode="jit", what="relabel", n=60 if q else 600, seed=[seed, 18888, 1]))
     # the same work in an interpreter started with -O (assert statements compiled away)
     byname = {sp["name"]: sp for sp in specs}
     if 'entry-0' in byname:
@@ -207,9 +210,44 @@ def run_kernel(spec, res):
         res.nontriv(common.h(C, b))
 
 
+def run_relabel(spec, res):
+    """predict_cluster_labels on one fitted state with the scalar switching cost given in every real scalar form: the labels and the
+    bytes of the cost must not depend on the form (a form that slips through to the arithmetic - extended precision, float32 - shows in
+    the last bits of the accumulated cost)."""
+    from fast_ticc import cluster_label_assignment as cla
+    from ticcmon.checks import c05
+    rng = np.random.default_rng(spec["seed"])
+    forms = ["float", "np.float64", "np.longdouble", "np.float32", "np.float16", "int", "np.int64"]
+    for i in range(spec["n"]):
+        W = int(rng.integers(1, 3))
+        nw = W * int(rng.integers(1, 3))
+        d = dict(rng=[int(v) for v in spec["seed"]] + [i], nw=nw, W=W, K=int(rng.integers(2, 5)), T=int(rng.integers(20, 90)), scale=1.0,
+                 spread=1.0, layout="C", theta="dense")
+        value = [5, 1, 3, 0.5, 2.5, 7][i % 6]          # representable in every form compared
+        use = [f for f in forms if not (f in ("int", "np.int64") and value != int(value))]
+        outs = {}
+        for form in use:
+            st, X = c05.make_model(d)
+            st.arguments.label_switching_cost = wd.SCALAR_FORMS[form](value)
+            try:
+                new = cla.predict_cluster_labels(st, X)
+                outs[form] = "%s|%s" % (",".join(str(int(v)) for v in new.point_labels), np.float64(new.label_assignment_cost).tobytes().hex())
+            except Exception as e:
+                outs[form] = "EXC:%s" % type(e).__name__
+            res.evaluations += 1
+        if len(set(outs.values())) > 1:
+            ref = outs["float"]
+            res.violation("relabelling function: switching cost %r gives different labels / cost bits in the forms %s than as a Python float" % (
+                value, sorted(f for f, v in outs.items() if v != ref)), dict(what="relabel", rng=d["rng"]))
+        res.count("relabel_classes_compared")
+        res.nontriv("relabel-%d-%s" % (i, spec["mode"]))
+
+
 def run_shard(spec, res):
     res.counters["numba_state"] = str(common.numba_state())
-    if spec["what"] == "kernel":
+    if spec["what"] == "relabel":
+        run_relabel(spec, res)
+    elif spec["what"] == "kernel":
         run_kernel(spec, res)
     elif spec["what"] == "entry":
         run_entry(spec, res)
@@ -218,6 +256,9 @@ def run_shard(spec, res):
 
 
 def replay(case, res):
+    if case["what"] == "relabel":
+        run_relabel(dict(seed=case["rng"][:-1], n=case["rng"][-1] + 1, mode="interp"), res)
+        return
     if case["what"] == "kernel":
         run_kernel(dict(seed=case["rng"][:-1], n=case["rng"][-1] + 1), res)
         return
@@ -236,6 +277,8 @@ def finalize(merged, tier):
         out["inconclusive"].append("only %d equivalence classes had >=2 completed forms" % c.get("classes_compared", 0))
     if c.get("kernel_tables_compared", 0) < (500 if q else 5000):
         out["inconclusive"].append("kernel-level scalar/vector comparison ran only %d times" % c.get("kernel_tables_compared", 0))
+    if c.get("relabel_classes_compared", 0) < (250 if q else 2500):
+        out["inconclusive"].append("relabelling-function form comparison ran only %d times" % c.get("relabel_classes_compared", 0))
     for w in ("lam", "beta", "eps"):
         if c.get("e2e_class:" + w, 0) < 2:
             out["inconclusive"].append("end-to-end class %s exercised %d times" % (w, c.get("e2e_class:" + w, 0)))
